@@ -71,7 +71,9 @@ var builtinDecos = []string{
 // Populate, one name that is not registered (rendering must then fail), and
 // one decoration derived from a registered one by copying it and changing two
 // glyphs (value copies of a Decoration must be independent of each other).
-const NDecoChoices = 10
+// The eleventh choice hands SetDecoration the EMPTY decoration value itself:
+// a table so decorated refuses to render, however the wrapper was decorated before.
+const NDecoChoices = 11
 
 // htmlFlagMask: bit0 row-class generator, bit1 caption/id/class, bit3 a
 // TemplateName shared by every wrapper that sets it.
@@ -92,6 +94,9 @@ func DecoName(i int) string {
 	}
 	if i == len(builtinDecos)+3 {
 		return "boxless-inner"
+	}
+	if i == len(builtinDecos)+4 {
+		return "empty-value"
 	}
 	return unknownDecoName
 }
@@ -199,6 +204,10 @@ func (w *World) decorate(tt *texttable.TextTable, spec RenderSpec) {
 		tt.SetDecoration(d)
 		return
 	}
+	if name == "empty-value" {
+		tt.SetDecoration(decoration.EmptyDecoration)
+		return
+	}
 	if name == "boxless-inner" {
 		// the boxless decoration with column dividers: content lines only, "a | b"
 		d := decoration.NoBox()
@@ -241,6 +250,9 @@ func (w *World) autoStyle(spec RenderSpec) string {
 	name := DecoName(spec.Deco)
 	if name == "custom" || name == "derived" || name == "boxless-inner" {
 		name = decoration.D_UTF8_HEAVY
+	}
+	if name == "empty-value" {
+		name = unknownDecoName // a style string cannot carry a value
 	}
 	if spec.Flags&2 != 0 && name == decoration.D_UTF8_HEAVY {
 		return "texttable" // the default decoration, selected by the bare package name
@@ -344,7 +356,7 @@ func AllRenderSpecs() []RenderSpec {
 					continue
 				}
 				for d := 0; d < NDecoChoices; d++ {
-					if (via == ViaAuto || via == ViaAutoFn) && (DecoName(d) == "custom" || DecoName(d) == "derived" || DecoName(d) == "boxless-inner") {
+					if (via == ViaAuto || via == ViaAutoFn) && (DecoName(d) == "custom" || DecoName(d) == "derived" || DecoName(d) == "boxless-inner" || DecoName(d) == "empty-value") {
 						continue
 					}
 					out = append(out, RenderSpec{Format: f, Via: via, Deco: d, Flags: d & 1})
